@@ -14,6 +14,7 @@ import os
 from . import common
 from . import lib_deps as L
 from . import c13
+import time
 from .common import parallel_map
 
 RULE = ("cases = (declared graph as in C13 with extra tags, target product, recursive, check, force, products set up in "
@@ -35,6 +36,16 @@ def gen_graph(rng, wide=False):
     for p in g["products"]:
         if rng.random() < 0.2:
             p["tags"] = p["tags"] + ["beta"]
+    # the same version declared for a second flavor in the same stack, tagged there (also with tags the version does not
+    # carry for this flavor): nothing of the other flavor may be touched by a removal for this one
+    if rng.random() < 0.3:
+        taken = set()
+        for p in rng.sample(g["products"], min(len(g["products"]), rng.choice([1, 2, 3]))):
+            if p.get("notable") or p.get("missing"):
+                continue
+            tg = [t for t in rng.choice([["current"], ["current"], ["beta"], ["current", "beta"], []]) if (p["name"], t) not in taken]
+            taken |= {(p["name"], t) for t in tg}
+            p["also"] = {"flavor": "Linux64", "tags": tg}
     # a tag names one version per product
     seen = set()
     for p in g["products"]:
@@ -58,6 +69,9 @@ def gen_cases(rng, g, per_graph=18, setups=None):
         out += [["", "", False, False, False, [], False, "untag:" + t] for t in tags + ["beta"]]
         out += [[p["name"], p["version"], False, False, f, [], False, "tag:" + t] for p in g["products"] for f in (False, True)
                 for t in p.get("tags", []) + ["beta"]]
+        if g.get("_interactive"):
+            out += [[p["name"], p["version"], True, c, False, [], False, "ask:" + sc] for p in g["products"]
+                    for c in (False, True) for sc in ("nnnnq", "ynq", "nyq", "neq", "xyxnq", "yn!q")]
         return sorted(out, key=repr)
     rng.shuffle(allc)
     out = allc[:per_graph]
@@ -82,6 +96,20 @@ def gen_cases(rng, g, per_graph=18, setups=None):
             # versions written in table files, which is outside the resolution rule modelled here (C03's subject).
             mine = [p.get("tags", []) for p in g["products"] if p["name"] == c[0] and p["version"] == c[1]][0]
             c[7] = "tag:" + (rng.choice(mine) if (mine and rng.random() < 0.8) else rng.choice(["current", "beta"]))
+    for c in out:
+        if c[7] == "version" and rng.random() < 0.15:
+            # `eups remove -i`: what is typed at the prompts, one letter per line (e = empty line, x = something else);
+            # always ends with q, so the answers never run out
+            style = rng.random()
+            if style < 0.15:
+                script = "q"
+            elif style < 0.35:
+                script = rng.choice(["n", "ne", "nx"]) * 8
+            elif style < 0.5:
+                script = rng.choice(["!", "y!", "n!", "x!"])
+            else:
+                script = "".join(rng.choice("yyynnnex") for _ in range(rng.randint(2, 9))) + rng.choice(["", "", "!"])
+            c[7] = "ask:" + script + "q"
     if rng.random() < 0.5:
         out.append(["", "", False, False, False, [], False, "untag:" + rng.choice(["current", "beta", "beta"])])
     return sorted(out, key=repr)
@@ -101,23 +129,35 @@ def run_impl(job):
         L.set_up_in_env(s, setup)
         if ro:
             L.readonly_database(s)
-        before, dbb = L.snapshot(s), L.db_listing(s)
+        before, dbb, otherb = L.snapshot(s), L.db_listing(s), L.db_listing(s, others=True)
         flags = (["-R"] if rec else []) + ([] if check else ["-N"]) + (["-F"] if force else [])
-        if how == "version":
+        if how.startswith("ask:"):
+            import builtins
+            typed = [{"e": "", "x": "maybe", "!": "!"}.get(ch, ch) for ch in how[4:]]
+
+            def fake_input(prompt=""):
+                if not typed:
+                    raise EOFError
+                return typed.pop(0)
+            builtins.input = fake_input
+            args = ["remove", "-i"] + flags + [name, version]
+        elif how == "version":
             args = ["remove"] + flags + [name, version]
         elif how.startswith("tag:"):
             args = ["remove"] + flags + ["-t", how[4:], name]
         else:
             args = ["remove", "-t", how[6:]]
         r = L.run_cli(args, record=())
-        after, dba = L.snapshot(s), L.db_listing(s)
+        after, dba, othera = L.snapshot(s), L.db_listing(s), L.db_listing(s, others=True)
         if r["error"] is None and r["rc"] == 0:
             outcome = "ok"
         elif r["error"] is None and r["rc"] == 2 and how.startswith("tag:"):
             outcome = "NoSuchTag"
         else:
             outcome = r["error"] or "rc=%s" % r["rc"]
-        return {"out": outcome, "before": before, "after": after, "dbb": dbb, "dba": dba}
+        if outcome == "Other(EOFError)":
+            outcome = "EOF"
+        return {"out": outcome, "before": before, "after": after, "dbb": dbb, "dba": dba, "otherb": otherb, "othera": othera}
     finally:
         common.rmtree(root)
 
@@ -125,6 +165,148 @@ def run_impl(job):
 def in_child_job(job):
     r = common.in_child(run_impl, job)
     return r[1] if r[0] == "ok" else {"crash": r}
+
+
+# ---- histories: several commands by ONE Eups object in one process ---------------------------------------------------
+
+PRELUDES = ("uses_all", "uses_query", "refused_remove", "noaction_remove", "none")
+
+
+def gen_history(rng, g, R):
+    """A who-uses-what computation (or a refused / a -n checked removal) first, then `declare` of a new product whose
+    table requires D, then a checked unforced `remove D` — all by the same Eups object: whatever the object computed
+    before the declaration must not decide the removal."""
+    D = rng.choice(g["products"])
+    top = (D["name"], D["version"], True)
+    has_user = any(top in R.closure((k[0], k[1], True))[0] for k in R.decl if k != (D["name"], D["version"]))
+    prelude = rng.choice(PRELUDES)
+    if prelude == "refused_remove" and not has_user:
+        prelude = "uses_all"            # (it would not be refused)
+    if prelude == "noaction_remove" and has_user:
+        prelude = "uses_query"
+    if rng.random() < 0.2:
+        # `remove(..., userInfo=self.uses())`: "if you're calling remove repeatedly, you can pass in a userInfo object"
+        return {"prelude": "uses_all_pass_info", "target": [D["name"], D["version"]], "newp": None, "had_user": has_user}
+    explicit = rng.random() < 0.5 or "current" not in D.get("tags", [])
+    newp = {"name": "hnew", "version": "1", "tags": ["current"],
+            "deps": [{"k": rng.choice(["req", "req", "opt"]), "n": D["name"], "v": D["version"] if explicit else None, "j": rng.random() < 0.2}]}
+    return {"prelude": prelude, "target": [D["name"], D["version"]], "newp": newp, "had_user": has_user}
+
+
+def run_history(job):
+    graph, h = job
+    n, v = h["target"]
+    root = common.scratch("c14h")
+    devnull = os.open(os.devnull, os.O_WRONLY)
+    os.dup2(devnull, 1)
+    os.dup2(devnull, 2)
+    try:
+        s = L.install(root, graph)
+        start = L.snapshot(s)
+        ecmd = L.cli_eups("remove", [n, v])
+        e = ecmd.createEups()
+        pre = "ok"
+        try:
+            info = None
+            if h["prelude"] == "uses_all_pass_info":
+                info = L.quietly(e.uses)
+            elif h["prelude"] == "uses_all":
+                L.quietly(e.uses)
+            elif h["prelude"] == "uses_query":
+                L.quietly(e.uses, n, v)
+            elif h["prelude"] == "refused_remove":
+                L.quietly(e.remove, n, v, False, True)
+            elif h["prelude"] == "noaction_remove":
+                e.noaction = True
+                try:
+                    L.quietly(e.remove, n, v, False, True)
+                finally:
+                    e.noaction = False
+        except BaseException as ex:  # noqa
+            pre = L.err_class(ex)
+        pre_changed = L.snapshot(s) != start
+        np_ = h["newp"]
+        dec = "ok"
+        if np_:
+            d = common.mkprod(s, np_["name"], np_["version"], L.table_text(np_["deps"]))
+            try:
+                L.quietly(e.declare, np_["name"], np_["version"], d)
+            except BaseException as ex:  # noqa
+                dec = L.err_class(ex)
+        before, dbb, otherb = L.snapshot(s), L.db_listing(s), L.db_listing(s, others=True)
+        try:
+            if h["prelude"] == "uses_all_pass_info":
+                L.quietly(e.remove, n, v, False, True, False, info)
+            else:
+                L.quietly(e.remove, n, v, False, True)
+            out = "ok"
+        except BaseException as ex:  # noqa
+            out = L.err_class(ex)
+        after, dba, othera = L.snapshot(s), L.db_listing(s), L.db_listing(s, others=True)
+        return {"pre": pre, "pre_changed": pre_changed, "declare": dec, "out": out, "before": before, "after": after,
+                "dbb": dbb, "dba": dba, "otherb": otherb, "othera": othera}
+    finally:
+        common.rmtree(root)
+
+
+def in_child_history(job):
+    r = common.in_child(run_history, job)
+    return r[1] if r[0] == "ok" else {"crash": r}
+
+
+def history_request(g, h):
+    rq = {"m": "c14", "graph": {"products": g["products"]}, "default": None,
+          "cases": [h["target"] + [False, True, False, [], False, "version"]]}
+    if h["newp"]:
+        rq["declare"] = h["newp"]
+    return rq
+
+
+def evaluate_histories(ctx, graphs):
+    L.preimport()
+    jobs = []
+    for g in graphs:
+        fixed = g.get("_history")
+        g = {k: v for k, v in g.items() if k not in ("_setups", "_history")}
+        jobs.append((g, fixed or gen_history(ctx.rng, g, c13.Resolved(g))))
+    impl = parallel_map(in_child_history, jobs, workers=4)
+    answers = ctx.lean.ask_many([history_request(g, h) for g, h in jobs])
+    for (g, h), io_, ans in zip(jobs, impl, answers):
+        if "bad-op" in ans:
+            raise common.InfraError("driver rejected a C14 history: %s" % ans["bad-op"])
+        if "crash" in io_:
+            raise common.InfraError("implementation child failed: %r" % (io_["crash"],))
+        inp = {"graph": g, "history": h}
+        ci, cm = canon_impl(io_), canon_model(ans["answers"][0])
+        ctx.case(key=[g["products"], "history", h], nontrivial=True)
+        ctx.hist("history:%s:%s" % (h["prelude"], io_["out"]))
+        if io_["declare"] != "ok":
+            raise common.InfraError("history: declare failed (%s)" % io_["declare"])
+        if ci != cm:
+            ctx.disagree("state_after_history", inp, ci, cm)
+        unsetup_any = any(d["k"] in ("unreq", "unopt") for p in g["products"] for d in p["deps"])
+        if io_["pre_changed"]:
+            ctx.fail("history_prelude_changes_nothing", inp, ci, cm, note="%s (%s) changed the stack" % (h["prelude"], io_["pre"]), finding=None)
+        if h["prelude"] == "refused_remove" and io_["pre"] != "Refused" and not unsetup_any:
+            ctx.fail("never_still_needed", inp, ci, cm, note="the first removal of a product in use ended %s" % io_["pre"], finding=None)
+        if io_["out"] != "ok" and io_["after"] != io_["before"]:
+            ctx.fail("unchanged_unless_ok", inp, ci, cm, note="outcome %s but the stack changed" % io_["out"], finding=None)
+        if h["newp"] is None:
+            # the who-uses-what object handed to remove(): as the plain checked removal (the model's answer), never an error
+            if io_["out"].startswith("Other("):
+                ctx.fail("no_error", inp, ci, cm, note="remove(..., userInfo=uses()) raised %s" % io_["out"], finding=None)
+            if not unsetup_any and h["had_user"] and io_["out"] == "ok":
+                ctx.fail("never_still_needed", inp, ci, cm, note="removed although in use (userInfo passed in)", finding=None)
+        elif not unsetup_any:
+            # hnew was declared with a table that requires the target: the checked, unforced removal must be refused
+            if io_["out"] == "Refused":
+                ctx.hist("history:refused_after_declare")
+                if not h["had_user"]:
+                    ctx.hist("history:refused_only_because_of_the_new_user")
+            else:
+                ctx.fail("never_still_needed", inp, ci, cm, finding=None,
+                         note="hnew 1, declared by the same Eups object after %s, requires %s %s; its removal ended %s"
+                              % (h["prelude"], h["target"][0], h["target"][1], io_["out"]))
 
 
 def canon_impl(io_):
@@ -140,6 +322,13 @@ def canon_model(a):
 
 def oracle(R, graph, case, io_, closures):
     name, version, rec, check, force, setup, ro, how = case
+    # whatever the command does for this flavor: declarations, tags and directories of another flavor stay as they were
+    if io_["othera"] != io_["otherb"]:
+        yield ("other_flavor_untouched", None, "other flavors before %s, after %s" % (io_["otherb"], io_["othera"]))
+    for path, h in io_["before"].items():
+        if path.startswith("Linux64/") and io_["after"].get(path) != h:
+            yield ("other_flavor_untouched", None, "%s was changed or deleted" % path)
+            break
     if how.startswith("untag:"):
         # the tag is taken off every product; no declaration, no directory, no other tag is touched
         t = how[6:]
@@ -164,6 +353,12 @@ def oracle(R, graph, case, io_, closures):
     top = (name, version, True)
     out = io_["out"]
     before, after = io_["before"], io_["after"]
+    # database files shared with another flavor legitimately survive (with that flavor's group only)
+    shared = set()
+    for x in io_["otherb"]["decl"]:
+        shared.add("ups_db/%s/%s.version" % (x[0], x[1]))
+    for x in io_["otherb"]["tags"]:
+        shared.add("ups_db/%s/%s.chain" % (x[0], x[1]))
     decl_b = {tuple(x) for x in io_["dbb"]["decl"]}
     decl_a = {tuple(x) for x in io_["dba"]["decl"]}
     listed, expanded = R.closure(top, ignore_j=True)                   # remove follows -j dependencies too
@@ -223,10 +418,10 @@ def oracle(R, graph, case, io_, closures):
             rr = R.reach(nodes, expanded)
             cyclic = any(any(b != a and b in rr[a] and a in rr.get(b, ()) for b in nodes) for a in nodes) or top in listed
             if check and unsetup_any:
-                yield ("terminates", "D32", "RecursionError from the in-use check (unsetupRequired inside a cycle)")
+                yield ("terminates", None, "RecursionError from the in-use check (unsetupRequired inside a cycle: D32, repaired)")
             elif rec and unsetup_any:
                 # also when the closure is cyclic: the model (which has the D33 repair) must reproduce the outcome
-                yield ("terminates", "D32", "RecursionError: unsetupRequired line met while listing direct dependencies")
+                yield ("terminates", None, "RecursionError: unsetupRequired line met while listing direct dependencies (D32, repaired)")
             elif rec and cyclic:
                 yield ("terminates", None, "RecursionError: recursive remove over a cyclic dependency closure (D33, repaired)")
             else:
@@ -239,7 +434,17 @@ def oracle(R, graph, case, io_, closures):
     gone = decl_b - decl_a
     if decl_a - decl_b:
         yield ("exact", None, "new declarations %s" % sorted(decl_a - decl_b))
-    if not rec:
+    ask = how[4:] if how.startswith("ask:") else None
+    if ask is not None:
+        # -i: at most what the command would remove without it; nothing when every answer is no, or the first is q
+        eff = ask.replace("x", "")
+        upper = ({(name, version)} | reach) if rec else {(name, version)}
+        if not gone <= upper and not unsetup_any:
+            yield ("exact", None, "undeclared %s, at most %s could be asked about" % (sorted(gone), sorted(upper)))
+        body = eff[:-1]
+        if gone and (eff.startswith("q") or (body[:1] == "n" and set(body) <= {"n", "e"})):
+            yield ("interactive_no_means_no", None, "answers %r, but %s were removed" % (ask, sorted(gone)))
+    elif not rec:
         if gone != {(name, version)}:
             yield ("exact", None, "undeclared %s, asked for %s" % (sorted(gone), (name, version)))
     else:
@@ -259,7 +464,11 @@ def oracle(R, graph, case, io_, closures):
         elif parts[0] == "ups_db" and len(parts) == 3 and parts[2].endswith(".chain"):
             tv = [t for t in tags_b if t[0] == parts[1] and t[1] == parts[2][:-len(".chain")]]
             owner = (parts[1], tv[0][2]) if tv else None
-        if owner in gone:
+        if path in shared:
+            if path not in after:
+                yield ("other_flavor_untouched", None, "%s, which also holds a record of another flavor, is gone" % path)
+                return
+        elif owner in gone:
             if path in after:
                 yield ("removed_completely", None, "%s survives the removal of %s" % (path, owner))
                 return
@@ -272,6 +481,7 @@ def oracle(R, graph, case, io_, closures):
         yield ("frame", None, "new files %s" % new[:3])
     # safety: with the check on and force off, no survivor needs a removed product
     if check and not force and not unsetup_any:
+        # (D74, repaired: with -i the user could keep the requested product and say yes to one of its dependencies)
         for key in decl_a:
             l2, _ = closures((key[0], key[1], True))
             bad = [(t[0], t[1]) for t in l2 if (t[0], t[1]) in gone]
@@ -292,11 +502,12 @@ def evaluate(ctx, graphs, per_graph=18, all_cases=False):
     for g in graphs:
         if all_cases:
             cases = gen_cases(ctx.rng, g, setups=g.pop("_setups", [([], False)]))
+            g.pop("_interactive", None)
         else:
             cases = gen_cases(ctx.rng, g, per_graph)
         jobs.append((g, cases))
     flat = [(g, c) for g, cases in jobs for c in cases]
-    impl = parallel_map(in_child_job, flat, workers=6)
+    impl = parallel_map(in_child_job, flat, workers=4)
     answers = ctx.lean.ask_many([model_request(g, cases) for g, cases in jobs])
     k = 0
     for (g, cases), ans in zip(jobs, answers):
@@ -323,6 +534,11 @@ def evaluate(ctx, graphs, per_graph=18, all_cases=False):
             ctx.case(key=[g["products"], case], nontrivial=nontriv,
                      sample={"input": inp, "impl": ci} if ctx.evaluations % 1009 == 0 else None)
             ctx.hist("%s%s%s:%s" % ("R" if case[2] else "-", "C" if case[3] else "-", "F" if case[4] else "-", io_["out"]))
+            if case[7].startswith("ask:"):
+                nb, na = len(io_["dbb"]["decl"]), len(io_["dba"]["decl"])
+                ctx.hist("interactive:%s:%s" % (io_["out"], "nothing removed" if na == nb else "%s removed" % ("one" if nb - na == 1 else "several")))
+                if io_["out"] == "ok" and na < nb and [case[0], case[1]] in io_["dba"]["decl"]:
+                    ctx.hist("interactive:requested_kept_dependency_removed")
             if case[5]:
                 ctx.hist("setup_in_env:%s" % io_["out"])
             if case[6]:
@@ -334,6 +550,11 @@ def evaluate(ctx, graphs, per_graph=18, all_cases=False):
                 others = [k for k in R.decl if k != (case[0], case[1])]
                 users_of[top] = (any(top in closures((k[0], k[1], True))[0] for k in others),
                                  any(mine & closures((k[0], k[1], True))[0] for k in others))
+            tp = R.decl.get((case[0], case[1]))
+            if tp and tp.get("also") and io_["out"] == "ok":
+                ctx.hist("target:removed_with_second_flavor")
+                if any(t not in tp.get("tags", []) for t in tp["also"]["tags"]):
+                    ctx.hist("target:removed_with_tag_of_other_flavor_only")
             if users_of[top][0]:
                 ctx.hist("target:has_user")
             if nontriv:
@@ -357,45 +578,93 @@ def corpus_items():
                 with open(os.path.join(d, f)) as fh:
                     c = json.load(fh)
                 c["graph"]["shape"] = "corpus:" + f
+                if "history" in c:
+                    c["graph"]["_history"] = c["history"]
+                if c.get("interactive"):
+                    c["graph"]["_interactive"] = True
                 c["graph"]["_setups"] = [(su, False) for su in c.get("setups", [[]])] + [([], True)] * bool(c.get("readonly"))
                 out.append(c["graph"])
     return out
 
 
+FLOORS = ("target:has_user", "target:has_dependency", "target:shares_dependency", "target:removed_with_second_flavor",
+          "target:removed_with_tag_of_other_flavor_only", "interactive:ok:nothing removed", "interactive:ok:one removed")
+
+
 def run(ctx):
+    """The ordinary quick portion first (corpus, a slice of the exhaustive family, the generated stream with its floors);
+    the enlarged budget (thorough tier, or a quick run escalated because the mirrored source changed) after it — see c13.run."""
+    big = ctx.tier == "thorough" or ctx.escalated
     cg = corpus_items()
     ctx.hist("corpus", len(cg))
+    ch = [g for g in cg if "_history" in g]
+    cg = [g for g in cg if "_history" not in g]
     if cg:
         evaluate(ctx, cg, all_cases=True)
+    if ch:
+        evaluate_histories(ctx, ch)
     # exhaustive small family (C13's, two candidate lines per table: 256 graphs), every target and flag combination
     total = c13.enum_count(2)
-    if ctx.tier == "thorough" or ctx.escalated:
-        ids = list(range(total))
-        ctx.note("exhaustive family: all %d graphs x every target x recursive x check x force" % total)
-    else:
-        ids = [(ctx.seed * 97 + k * 37) % total for k in range(6)]
-    for at in range(0, len(ids), 32):
-        if ctx.out_of_time():
-            break
-        evaluate(ctx, [c13.enum_graph(i, 2) for i in ids[at:at + 32]], all_cases=True)
-    n = ctx.n(45, 5000)
+    ids = [(ctx.seed * 97 + k * 37) % total for k in range(3)]
+    evaluate(ctx, [c13.enum_graph(i, 2) for i in ids], all_cases=True)
+    n = 45
     done = 0
-    while done < n and not ctx.out_of_time():
-        k = min(40, n - done)
-        evaluate(ctx, [gen_graph(ctx.rng, wide=ctx.tier == "thorough") for _ in range(k)])
+    t_run = time.time()
+    # a loaded machine: fewer cases rather than a late verdict — but never fewer than 30 generated graphs (the floors)
+    soft = (lambda: done >= 30 and time.time() - t_run > 55) if not big else (lambda: False)
+    while done < n and not ctx.out_of_time() and not soft():
+        k = min(15, n - done)
+        evaluate(ctx, [gen_graph(ctx.rng, wide=ctx.tier == "thorough") for _ in range(k)], per_graph=12)
         done += k
+    hg = [gen_graph(ctx.rng) for _ in range(24)] + [c13.enum_graph(i, 2) for i in ids + [(ids[0] + 11) % total, (ids[0] + 23) % total, (ids[0] + 57) % total]]
+    evaluate_histories(ctx, hg)
     if ctx.evaluations and ctx.distinct_nontrivial < ctx.evaluations * 0.3:
         raise common.InfraError("degenerate distribution: %d non-trivial of %d" % (ctx.distinct_nontrivial, ctx.evaluations))
     h = ctx.histogram
-    if not ctx.escalated and n >= 40:
-        for need in ("target:has_user", "target:has_dependency", "target:shares_dependency"):
+    for need in ("history:refused_after_declare", "history:refused_only_because_of_the_new_user"):
+        if not h.get(need):
+            raise common.InfraError("degenerate distribution: no case with %s" % need)
+    if done < 30 and not ctx.out_of_time():
+        raise common.InfraError("only %d generated graphs were evaluated" % done)
+    if done >= 30:
+        for need in FLOORS:
             if not h.get(need):
                 raise common.InfraError("degenerate distribution: no case with %s" % need)
+    if not big:
+        return
+    ctx.note("exhaustive family: all %d graphs x every target x recursive x check x force, interleaved with the generated stream" % total)
+    rest = [i for i in range(total) if i not in set(ids)]
+    at, more = 0, 0
+    while (at < len(rest) or more < 4955) and not ctx.out_of_time():
+        if more < 4955:
+            evaluate(ctx, [gen_graph(ctx.rng, wide=ctx.tier == "thorough") for _ in range(40)])
+            more += 40
+            if not ctx.out_of_time():
+                evaluate_histories(ctx, [gen_graph(ctx.rng, wide=ctx.tier == "thorough") for _ in range(40)])
+        if at < len(rest) and not ctx.out_of_time():
+            evaluate(ctx, [c13.enum_graph(i, 2) for i in rest[at:at + 16]], all_cases=True)
+            at += 16
 
 
 def replay(ctx, rp):
     common.import_eups()
     inp = rp["input"]
+    if "history" in inp:
+        g, h = inp["graph"], inp["history"]
+        io_ = in_child_history((g, h))
+        ans = ctx.lean.ask(history_request(g, h))
+        ci, cm = canon_impl(io_), canon_model(ans["answers"][0])
+        fails = []
+        unsetup_any = any(d["k"] in ("unreq", "unopt") for p in g["products"] for d in p["deps"])
+        if io_["pre_changed"]:
+            fails.append({"clause": "history_prelude_changes_nothing", "class": None, "detail": io_["pre"]})
+        if io_["out"] != "ok" and io_["after"] != io_["before"]:
+            fails.append({"clause": "unchanged_unless_ok", "class": None, "detail": io_["out"]})
+        if h["newp"] is None and io_["out"].startswith("Other("):
+            fails.append({"clause": "no_error", "class": None, "detail": "remove(..., userInfo=uses()) raised %s" % io_["out"]})
+        if h["newp"] and not unsetup_any and io_["out"] != "Refused":
+            fails.append({"clause": "never_still_needed", "class": None, "detail": "removal after the declaration of a user ended %s" % io_["out"]})
+        return {"input": inp, "impl_output": ci, "model_output": cm, "agree": ci == cm, "fails": fails}
     g, case = inp["graph"], inp["case"]
     io_ = in_child_job((g, case))
     ans = ctx.lean.ask(model_request(g, [case]))
